@@ -1,7 +1,8 @@
-use rusty_parser::ForLoop;
+use rusty_common::AtPos;
+use rusty_parser::{ExpressionPos, ForLoop, TypeQualifier};
 
 use crate::converter::common::{Convertible, ConvertibleIn, ExprContext};
-use crate::core::{LintErrorPos, LinterContext};
+use crate::core::{CanCastTo, LintError, LintErrorPos, LinterContext};
 
 impl Convertible for ForLoop {
     fn convert(self, ctx: &mut LinterContext) -> Result<Self, LintErrorPos> {
@@ -11,6 +12,12 @@ impl Convertible for ForLoop {
         let lower_bound = self.lower_bound.convert_in_default(ctx)?;
         let upper_bound = self.upper_bound.convert_in_default(ctx)?;
         let step = self.step.convert_in_default(ctx)?;
+        // the bounds and the step need to be numeric
+        ensure_numeric(&lower_bound)?;
+        ensure_numeric(&upper_bound)?;
+        if let Some(step) = &step {
+            ensure_numeric(step)?;
+        }
         let statements = self.statements.convert(ctx)?;
         let next_counter = self.next_counter.convert_in(ctx, ExprContext::Assignment)?;
         Ok(Self {
@@ -21,5 +28,13 @@ impl Convertible for ForLoop {
             statements,
             next_counter,
         })
+    }
+}
+
+fn ensure_numeric(expr: &ExpressionPos) -> Result<(), LintErrorPos> {
+    if expr.can_cast_to(&TypeQualifier::PercentInteger) {
+        Ok(())
+    } else {
+        Err(LintError::TypeMismatch.at(expr))
     }
 }
